@@ -194,7 +194,8 @@ def run_property(ctx: common.Context, plans_of: Callable[[str], list[dict[str, A
     if only:
         plans = [p for p in plans if only in p["name"]]
         ctx.exhaustive = False
-    totals = run_plans(ctx, plans, quick_s if not ctx.thorough else thorough_s, replay_fn)
+    budget = float(os.environ.get("VERIF_BUDGET_S", 0) or 0) or (quick_s if not ctx.thorough else thorough_s)  # development aid
+    totals = run_plans(ctx, plans, budget, replay_fn)
     ctx.bounds = {p["name"]: p["bounds"] for p in plans}
     ctx.assumptions = [
         "graphs: a concrete menu of selections of the shipped sample suite, parsed by the real Cartesian parser (memoised per process)",
